@@ -1252,6 +1252,27 @@ def cases(tier, seed):
 
 
 # =============================================================================================
+# deductive part (E1-array/bilinear): max_entangled, isotropic, werner for all d and all parameter values
+# =============================================================================================
+def prove(tier, seed):
+    from props.C17_bilinear import prove_part
+
+    return prove_part("C17")
+
+
+from props.C17_bilinear import ASSUMED as _BIL_ASSUMED  # noqa: E402
+
+ASSUMPTIONS = list(ASSUMPTIONS) + list(_BIL_ASSUMED)
+LEVEL = "other"
+ENGINES = ["E1-pyvc", "E3-E4-rtc"]
+LEVEL_TEXT = LEVEL_TEXT + (" Proved for ALL local dimensions d and ALL parameter values (E1-array/bilinear, the real source executed symbolically): max_entangled's entries "
+                           "(normalised and not) and - composed with partial_trace's postcondition - its maximally mixed marginals; isotropic's and the scalar Werner state's entries and "
+                           "trace one; the one-parameter list form of werner equals the scalar form (swap_operator / permutation_operator by their proved contracts).")
+EXPLANATION = LEVEL_TEXT
+TECHNIQUE = ("contracts on the real constructors discharged from self-generated verification conditions (E1-array/bilinear: symbolic execution of the real AST; z3 / cvc5 / normal form) for the "
+             "families with a symbolic dimension + " + TECHNIQUE)
+
+# =============================================================================================
 # frame coverage shared by all properties (E2 obligations for every public function of the anchor files + run-time frame cases)
 # =============================================================================================
 from props import frame_all as _fa  # noqa: E402
